@@ -2,7 +2,7 @@
 From Coq Require Import String.
 From Boltons Require Import Lib.Prelude Lib.C07_Str Spec.C07_Spec Gen.C07_Gen Model.C07_Model
      Proofs.C07_StrLemmas Proofs.C07_Rds Proofs.C07_Resolve Proofs.C07_Parse Proofs.C07_Navigate
-     Proofs.C07_Text Proofs.C07_RfcExamples.
+     Proofs.C07_Text Proofs.C07_RfcExamples Gen.C07_Src Proofs.C07_SrcEq.
 Open Scope N_scope.
 Open Scope list_scope.
 
@@ -21,6 +21,13 @@ Print Assumptions C07_path_delims_cover.
 Theorem C07_query_delims_cover : forall c, query_char c = true -> not_in [HASH; AMP; EQS] c = true.
 Proof. exact query_delims_cover. Qed.
 Print Assumptions C07_query_delims_cover.
+
+(* resolve_path_parts as it is in the source now (translated from its ast on
+   every run) is the model function all theorems below are about *)
+Theorem C07_source_resolve_path_parts : forall parts,
+  src_resolve_path_parts parts = resolve_path_parts parts.
+Proof. exact src_resolve_path_parts_eq. Qed.
+Print Assumptions C07_source_resolve_path_parts.
 
 (* ---- the Spec itself ----------------------------------------------------------------------- *)
 (* the fuel of the transcribed 5.2.4 loop always suffices: None is never returned *)
